@@ -529,6 +529,8 @@ def rule_ensemble_alloc(ctx, rid, fi):
         if v[0] == 'tuple' and v[1]:
             v = v[1][0]
         alloc = None
+        while v[0] == 'setitem':
+            v = v[1]            # stores into the allocation keep its width
         if v[0] == 's':
             m = re.match(r'^(\w+)@([FL]\d+)(post)?$', v[1])
             if m:
@@ -623,6 +625,9 @@ def rule_ragged_members(ctx, rid, fi):
                 n += 1
                 if _is_min_member_cols(B) is not None:
                     continue
+                if B[0] == 'call' and B[1] in ('builtins.min', 'numpy.minimum') and len(B[2]) >= 2 and not B[3] \
+                        and any(_is_min_member_cols(a) is not None for a in B[2]):
+                    continue        # min(cap, smallest member count)
                 safe = False
                 for c, truth, ln in e.state.conds:
                     if c[0] == 'cmp' and c[2] == B and _is_min_member_cols(c[3]) is not None:
@@ -767,6 +772,12 @@ def rule_second_layer(ctx, rid):
                         bad_al = 'allocated as %s' % show(shp)[:100].replace(show(sig_t), sig)
                 for kind, b in ls.body_states:
                     sets = [f for f in b.effects if f[0] == 'setitem' and f[5] == outn]
+                    # zero-filling the unused tail of the column ([:, i, k:] = 0) next to the store is the zero
+                    # padding the allocation provides otherwise
+                    sets = [f for f in sets if not (
+                        f[3] in (C(0), C(0.0)) and f[2][0] == 'tuple' and len(f[2][1]) == 3 and f[2][1][0] == FULL
+                        and f[2][1][1] == ls.var and f[2][1][2][0] == 'slice' and f[2][1][2][1] != C(None)
+                        and f[2][1][2][2] == C(None) and f[2][1][2][3] == C(None))]
                     if len(sets) != 1:
                         bad_st = 'a path through the column loop stores %d times into the result' % len(sets)
                         continue
